@@ -24,7 +24,7 @@ class FieldSelectionsOnObjectsInterfacesAndUnionsTypes(
             parent_type_name, field.name.value, schema
         )
 
-        if field.name.value.startswith("__"):
+        if field.name.value == "__typename":
             return []
 
         if graphql_type is None:
